@@ -39,6 +39,7 @@ func init() {
 			c10Idle(r)
 			fragmentStatsTruthful(r)
 			kvInsertIntoWritableHead(r)
+			c06CollectedVersionsComplete(r)
 		},
 	})
 }
